@@ -97,36 +97,51 @@ func (sc *RangeScanner) Scan() bool {
 	// on what the SplitFunc told us to do with advance.
 	adv := sc.b[sc.pos.Byte : sc.pos.Byte+advance]
 
-	// We now need to scan over our token to count the grapheme clusters
-	// so we can correctly advance Column, and count the newlines so we
-	// can correctly advance Line.
-	advR := bytes.NewReader(adv)
-	gsc := bufio.NewScanner(advR)
-	advanced := 0
-	gsc.Split(textseg.ScanGraphemeClusters)
-	for gsc.Scan() {
-		gr := gsc.Bytes()
-		new.Byte += len(gr)
-		new.Column++
-
-		// We rely here on the fact that \r\n is considered a grapheme cluster
-		// and so we don't need to worry about miscounting additional lines
-		// on files with Windows-style line endings. A carriage return that
-		// is not followed by a line feed is not a newline sequence (the
-		// scanners in hclsyntax and json count it as an ordinary character).
-		if len(gr) != 0 && gr[len(gr)-1] == '\n' {
-			new.Column = 1
-			new.Line++
+	// Some SplitFuncs (such as bufio.ScanWords) also skip bytes _before_ the
+	// token, so we need to find where in adv the token actually begins.
+	tokStart := 0
+	if len(token) > 0 {
+		if idx := bytes.Index(adv, token); idx > 0 {
+			tokStart = idx
 		}
+	}
+	tokEnd := tokStart + len(token)
+	if tokEnd > len(adv) {
+		tokEnd = len(adv)
+	}
 
-		if advanced < len(token) {
-			// If we've not yet found the end of our token then we'll
-			// also push our "end" marker along.
-			// (if advance > len(token) then we'll stop moving "end" early
-			// so that the caller only sees the range covered by token.)
+	// We now need to scan over the skipped prefix, the token and the skipped
+	// suffix to count the grapheme clusters so we can correctly advance
+	// Column, and count the newlines so we can correctly advance Line. The
+	// three parts are counted separately so that the reported range always
+	// covers exactly the bytes of the token.
+	for i, part := range [][]byte{adv[:tokStart], adv[tokStart:tokEnd], adv[tokEnd:]} {
+		gsc := bufio.NewScanner(bytes.NewReader(part))
+		gsc.Split(textseg.ScanGraphemeClusters)
+		for gsc.Scan() {
+			gr := gsc.Bytes()
+			new.Byte += len(gr)
+			new.Column++
+
+			// We rely here on the fact that \r\n is considered a grapheme cluster
+			// and so we don't need to worry about miscounting additional lines
+			// on files with Windows-style line endings. A carriage return that
+			// is not followed by a line feed is not a newline sequence (the
+			// scanners in hclsyntax and json count it as an ordinary character).
+			if len(gr) != 0 && gr[len(gr)-1] == '\n' {
+				new.Column = 1
+				new.Line++
+			}
+		}
+		switch i {
+		case 0:
+			start = new
+			end = new
+		case 1:
+			// (if advance > len(token) then "end" stops here so that the
+			// caller only sees the range covered by token.)
 			end = new
 		}
-		advanced += len(gr)
 	}
 
 	sc.cur = Range{
